@@ -152,6 +152,8 @@ pub fn base_module(id: &str, rng: &mut Rng, small: bool) -> Result<gen::GenModul
             cfg.max_globals = 5;
             cfg.min_imp_globals = 1;
             cfg.max_imp_globals = 3;
+            // initialiser / offset expressions read any imported global, so that deleting or adding an import in front of it matters
+            cfg.off_global_any = true;
             cfg.min_funcs = 1;
             *rng.pick(&[gen::PROFILES[0], gen::PROFILES[2], gen::PROFILES[6], gen::PROFILES[11], gen::PROFILES[4]])
         }
